@@ -124,6 +124,9 @@ def extract(tu_patterns, files_re, names_re=".", release=True, jobs=None, log=No
     """returns (FactsDB, info dict). Raises AnalysisBroken if a TU fails."""
     if not os.path.exists(TOOL):
         raise AnalysisBroken("extractor %s not built (run MANIFEST.setup_cmd)" % TOOL)
+    # the extractor uses llvm::Regex (POSIX ERE): no \w / \d classes
+    files_re = files_re.replace("\\w", "[A-Za-z0-9_]").replace("\\d", "[0-9]")
+    names_re = names_re.replace("\\w", "[A-Za-z0-9_]").replace("\\d", "[0-9]")
     tus = expand_tus(tu_patterns)
     if not tus:
         raise AnalysisBroken("no translation unit matches %r" % (tu_patterns,))
